@@ -184,6 +184,12 @@ def run_kani(names, timeout_s, jobs=8, unwind=None, extra_cbmc=(), target="kani-
     if harness_timeout:
         cmd += ["--harness-timeout", "%ds" % harness_timeout]
     cmd += ["--cbmc-args"] + CBMC_FLAGS + list(extra_cbmc)
+    # the harness filter is part of the compiler invocation but not of cargo's fingerprint: force the harness crate
+    # (not its dependencies) to be recompiled so that exactly the requested harnesses are generated
+    try:
+        os.utime(os.path.join(KANI_DIR, "src", "lib.rs"), None)
+    except OSError:
+        pass
     t0 = time.time()
     try:
         p = subprocess.run(cmd, cwd=KANI_DIR, env=env, capture_output=True, text=True, timeout=timeout_s)
